@@ -7,7 +7,7 @@ for d in sorted(glob.glob(os.path.join(here, 'seeded/C*/*/meta.json'))):
     m = json.load(open(d))
     parts = d.split('/')
     sid = parts[-3] + '/' + parts[-2]
-    what = m.get('what_breaks', '').replace('\n', ' ').replace('|', '/')
+    what = (m.get('what_breaks') or m.get('summary') or '').replace('\n', ' ').replace('|', '/')
     if len(what) > 230:
         what = what[:227] + '...'
     caught = m.get('caught_by', [])
